@@ -110,6 +110,15 @@ impl Raw {
         }
     }
 
+    /// Half-close: the peer sees an orderly end of stream (FIN, never a reset) while
+    /// this side stays open.
+    pub async fn shutdown_write(&mut self) -> std::io::Result<()> {
+        match self {
+            Raw::Tcp(s) => s.shutdown().await,
+            Raw::Unix(s) => s.shutdown().await,
+        }
+    }
+
     async fn read_some(&mut self, buf: &mut [u8]) -> std::io::Result<usize> {
         match self {
             Raw::Tcp(s) => s.read(buf).await,
